@@ -60,7 +60,9 @@ const (
 	Pass     = "privpassA1"
 	NewPass  = "privpassB9"
 	pubPass0 = inst.PubPass
-	pubPass1 = "publicpassVerif2"
+	// of other lengths than pubPass0 (a cached copy of the old length would mangle them)
+	pubPass1 = "pubpassV2"
+	pubPass2 = "publicpassVerifLonger3"
 )
 
 type ist struct {
@@ -71,6 +73,8 @@ type ist struct {
 	nKnown   int      // addresses the instance holds (issued or discovered)
 	unlocked bool
 	how      string
+	nInt     int  // internal-branch addresses the instance was imported with
+	second   bool // a second wallet was created on this instance
 }
 
 type run struct {
@@ -83,6 +87,7 @@ type run struct {
 	ref     *enum.RefWallet
 	export  string
 	expN    int
+	expInt  int
 	viol    []string
 	errs    []string // every error string returned by a failing operation
 	secrets map[string][]byte
@@ -93,10 +98,7 @@ func (r *run) fail(prop, f string, a ...interface{}) {
 }
 
 func pubOf(i int) string {
-	if i%2 == 0 {
-		return pubPass0
-	}
-	return pubPass1
+	return []string{pubPass0, pubPass1, pubPass2}[i%3]
 }
 
 func (r *run) newInst(how string) (*ist, error) {
@@ -130,6 +132,12 @@ func (r *run) count(s *ist) int {
 	a, err := s.I.W.VerifKeystoreManager().GetAddrs(r.id)
 	if err != nil {
 		return -1
+	}
+	// external addresses only (an instance imported with internal addresses holds nInt more)
+	for _, s2 := range r.insts {
+		if s2 == s {
+			return len(a) - s.nInt
+		}
 	}
 	return len(a)
 }
@@ -207,7 +215,7 @@ func (r *run) apply(ev string) (bool, error) {
 			r.fail("C05", "ExportWallet with the right passphrase failed on instance %s: %v", p[1], err)
 			return true, nil
 		}
-		r.export, r.expN = j, r.count(s)
+		r.export, r.expN, r.expInt = j, r.count(s), s.nInt
 		return true, nil
 	case "impk":
 		if r.export == "" || len(r.insts) >= r.m.O.MaxInst {
@@ -225,6 +233,7 @@ func (r *run) apply(ev string) (bool, error) {
 		if ws.WalletID != r.id {
 			r.fail("C04", "keystore import yields wallet id %s, original %s", ws.WalletID, r.id)
 		}
+		s.nInt = r.expInt // an exported keystore carries the internal child number
 		return true, r.makeReady(s)
 	case "impm":
 		if len(r.insts) == 0 || len(r.insts) >= r.m.O.MaxInst {
@@ -245,6 +254,42 @@ func (r *run) apply(ev string) (bool, error) {
 			r.fail("C04", "mnemonic import yields wallet id %s, original %s", ws.WalletID, r.id)
 		}
 		return true, r.makeReady(s)
+	case "impi":
+		// mnemonic import that also derives two INTERNAL (change) addresses
+		if len(r.insts) == 0 || len(r.insts) >= r.m.O.MaxInst {
+			return false, nil
+		}
+		s, err := r.newInst("mnemonic import with internal addresses")
+		if err != nil {
+			return true, err
+		}
+		ws, err := s.I.W.ImportWalletWithMnemonic(&keystore.WalletParams{Mnemonic: r.mnem, PrivatePassphrase: []byte(Pass), Remarks: "mi",
+			ExternalIndex: 1, InternalIndex: 2, AddressGapLimit: uint32(r.m.O.Gap)})
+		if err != nil {
+			r.fail("C04", "ImportWalletWithMnemonic (internal index 2) failed: %v", err)
+			return true, nil
+		}
+		if ws.WalletID != r.id {
+			r.fail("C04", "mnemonic import yields wallet id %s, original %s", ws.WalletID, r.id)
+		}
+		s.nInt = 2
+		return true, r.makeReady(s)
+	case "create2":
+		// a second, unrelated wallet on the same instance (it is encrypted under the
+		// instance's CURRENT public passphrase)
+		s := at()
+		if s == nil || s.second {
+			return false, nil
+		}
+		if _, _, _, err := s.I.W.CreateWallet(NewPass, "second", 128); err != nil {
+			r.fail("C04", "CreateWallet of a second wallet failed: %v", err)
+			return true, nil
+		}
+		s.second = true
+		if _, err := s.I.W.UseWallet(r.id); err != nil {
+			r.fail("C04", "UseWallet after creating a second wallet: %v", err)
+		}
+		return true, nil
 	case "restart":
 		s := at()
 		if s == nil {
@@ -293,7 +338,7 @@ func (m *Model) alphabet(r *run) []string {
 	var a []string
 	for k := range r.insts {
 		a = append(a, fmt.Sprintf("addr:%d:s", k), fmt.Sprintf("addr:%d:t", k), fmt.Sprintf("sign:%d", k), fmt.Sprintf("export:%d", k),
-			fmt.Sprintf("restart:%d", k), fmt.Sprintf("chpub:%d", k))
+			fmt.Sprintf("restart:%d", k), fmt.Sprintf("chpub:%d", k), fmt.Sprintf("create2:%d", k))
 	}
 	mx := 0
 	for _, s := range r.insts {
@@ -301,7 +346,7 @@ func (m *Model) alphabet(r *run) []string {
 			mx = c
 		}
 	}
-	a = append(a, "impk", "impm:0")
+	a = append(a, "impk", "impm:0", "impi")
 	if mx > 0 {
 		a = append(a, fmt.Sprintf("impm:%d", mx))
 	}
@@ -315,7 +360,7 @@ func (m *Model) enabled(r *run, ev string) bool {
 		return len(r.insts) == 0
 	case "impk":
 		return r.export != "" && len(r.insts) < m.O.MaxInst
-	case "impm":
+	case "impm", "impi":
 		return len(r.insts) > 0 && len(r.insts) < m.O.MaxInst
 	}
 	k, _ := strconv.Atoi(p[1])
@@ -328,6 +373,8 @@ func (m *Model) enabled(r *run, ev string) bool {
 		return r.count(s) < m.O.MaxAddr
 	case "sign":
 		return r.count(s) > 0
+	case "create2":
+		return !s.second
 	}
 	return true
 }
@@ -531,9 +578,9 @@ func (m *Model) Run(hist []string) *proto.Result {
 	}
 	var shapes []shape
 	for _, s := range r.insts {
-		shapes = append(shapes, shape{r.count(s), s.pubIdx % 2, s.unlocked, s.classes, s.how})
+		shapes = append(shapes, shape{r.count(s), s.pubIdx % 3, s.unlocked, s.classes, fmt.Sprint(s.how, s.nInt, s.second)})
 	}
-	kb, _ := json.Marshal(map[string]interface{}{"bits": r.bits, "shapes": shapes, "exp": r.expN, "hasexp": r.export != ""})
+	kb, _ := json.Marshal(map[string]interface{}{"bits": r.bits, "shapes": shapes, "exp": r.expN, "expint": r.expInt, "hasexp": r.export != ""})
 	kh := sha256.Sum256(kb)
 	res.Key = hex.EncodeToString(kh[:16])
 	res.Outcome = res.Key[:16]
@@ -556,12 +603,38 @@ func (m *Model) Run(hist []string) *proto.Result {
 			continue
 		}
 		sort.Strings(addrs)
-		all = append(all, addrs)
+		ext := addrs
+		if s.nInt > 0 {
+			// the cross-instance comparison below is about the external chain
+			internal := map[string]bool{}
+			for i := 0; i < s.nInt; i++ {
+				if ra, err := r.ref.AddrBranch(1, uint32(i)); err == nil {
+					internal[ra.Std] = true
+				}
+			}
+			ext = nil
+			for _, a := range addrs {
+				if !internal[a] {
+					ext = append(ext, a)
+				}
+			}
+		}
+		all = append(all, ext)
 		have := map[string]bool{}
 		for _, a := range addrs {
 			have[a] = true
 		}
-		for i := 0; i < len(addrs); i++ {
+		for i := 0; i < s.nInt; i++ {
+			ra, err := r.ref.AddrBranch(1, uint32(i))
+			if err != nil {
+				res.Err = err.Error()
+				return res
+			}
+			if !r.ref.Affected && !have[ra.Std] {
+				r.fail("C04", "instance %d (%s) does not hold the key chain's INTERNAL address at index %d (%s)", k, s.how, i, ra.Std)
+			}
+		}
+		for i := 0; i < len(addrs)-s.nInt; i++ {
 			ra, err := r.ref.Addr(uint32(i))
 			if err != nil {
 				res.Err = err.Error()
